@@ -16,7 +16,8 @@ from props.graphfacts import CORPUS, conclude, handler_program, replay  # noqa: 
 
 THEOREMS = ["Rva.lexNext_progress", "Rva.lexAll_guard", "Rva.lex_covers", "Rva.mulh_product_exact",
             "Rva.mulhsu_product_exact", "Rva.operate_rv32", "Rva.imm_spec", "Rva.recover_shorter",
-            "Rva.markLoop_terminates", "Rva.pipeline_markup_terminates"]
+            "Rva.markLoop_terminates", "Rva.pipeline_markup_terminates",
+            "Rva.parseStep_progress", "Rva.parseLoop_fuel_indep", "Rva.parseFiles_terminates"]
 
 UNI = ["é", "λ", "　", "\u200b", "\U0001F600", "\x00", "\x7f", "\x0b", "\x0c", "\ufeff", "\u2028", "ß", "İ"]
 EXTREME = ["2147483647", "-2147483648", "4294967295", "-4294967295", "0x7fffffff", "0x80000000", "0xffffffff",
@@ -80,7 +81,7 @@ def restrict(s):
 def run(res, tier, seed):
     rng = random.Random(seed)
     proof_ok = proof_stage(res, "Rva.Proofs.C06", THEOREMS,
-                           extra_modules=["Rva.Proofs.LexTotal", "Rva.Proofs.C08", "Rva.Proofs.C17", "Rva.Proofs.C07", "Rva.Proofs.C11d"])
+                           extra_modules=["Rva.Proofs.LexTotal", "Rva.Proofs.C08", "Rva.Proofs.C17", "Rva.Proofs.C07", "Rva.Proofs.C11d", "Rva.Proofs.C06b"])
     build_rva()
     n = 400 if tier == "quick" else 8000
     srcs = [restrict(hostile(rng)) for _ in range(n)] + [c for c in CORPUS if "jal t0,B" not in c]
